@@ -626,6 +626,12 @@ def run_class_impl(case):
         with contextlib.redirect_stdout(io.StringIO()):
             return cls.normalize_config(cfg)
     cfg = wire2py(case['config'])
+    # normalisation is a function of (class, configuration): what OTHER filter classes of the same process normalised before - the same texts included -
+    # must not matter (a pipeline started with `openfilter run` normalises every filter's configuration in one process)
+    for other in case.get('after') or []:
+        try:
+            with contextlib.redirect_stdout(io.StringIO()): get_class(other).normalize_config(copy.deepcopy(cfg))
+        except Exception: pass
     try: n1 = norm(copy.deepcopy(cfg))
     except Exception as e: obs = {'exc': exc_name(e)}; n1 = None
     if n1 is not None:
@@ -765,6 +771,8 @@ def run(ctx):
         per = 6000 if ctx.thorough else (1200 if ctx.escalate else 300)
         for cls in CLASSES:
             ccases += [gen_class_case(rng, cls, mal=(i % 6 == 5)) for i in range(per)]
+        for c in ccases:
+            if rng.random() < 0.2: c['after'] = rng.sample([x for x in CLASSES if x != c['cls']], rng.randint(1, 3))
     creqs, cidx = [], []
     for c in ccases:
         obs, viol, fobs = run_class_impl(c)
